@@ -7,14 +7,12 @@
      (i)   tokens (d_prog cfg p1)  =  lex (real t2)             model printer (token level) and lexer
      (i')  render cfg (d_prog cfg p1) = real t2                 model printer (layout level), see Model/Pretty.v
      (ii)  parse (lex t2)  =  p2                                model parser on the printed text
-     (iii) the property on the implementation's outputs: p2 = p1 and t3 = t2;  failures are classified
-           with [renorm], the closed description of the one known defect class (a literal 0 next to
-           the comparison operator of an `if`):
-             VIOL class=tree-changed:minus-zero-comparison   p2 is exactly renorm p1
-             VIOL class=unparsable:zero-literal-comparison   p2 does not parse and renorm p1 says so
-             VIOL class=tree-changed:other / class=unparsable:other / class=not-idempotent   anything else
-           and [renorm] is itself compared with the implementation on every case (DIFF class-predicate),
-           so the class is neither too wide nor too narrow on the inputs of the run. *)
+     (iii) the property on the implementation's outputs: p2 = p1 and t3 = t2.  The model describes the
+           REPAIRED printer (zero-literal defect, fix commit <commit>), so every failure is a violation;
+           [old_renorm], the closed description of the behaviour before the repair, only names a recurrence:
+             VIOL class=tree-changed:minus-zero-comparison   p2 is exactly old_renorm p1 (<> p1)
+             VIOL class=unparsable:zero-literal-comparison   p2 does not parse and old_renorm p1 = None
+             VIOL class=tree-changed:other / class=unparsable:other / class=not-idempotent   anything else *)
 From Coq Require Import List ZArith NArith String Ascii Bool.
 From SCC Require Import Base.Sexp Lang.SynUtil Lang.FunSyn Model.Printer Model.Parser Model.Pretty Model.FmtClass Model.RunBase.
 From SCC Require Import Proof.FmtDefs.   (* definitions only: wf_prog, the hypothesis "parser shaped" of the theorems *)
@@ -154,27 +152,23 @@ Definition cfg_lines (p1 : fprog) (feats : string) (cache : list cfg_cache) (x :
                         | RProg p, Some q => if fprog_eqb q p then [] else [("DIFF", "model=other-tree rust=p2 " ++ where_)]
                         | _, None => [("DIFF", "model=rejects rust=parses " ++ where_ ++ " " ++ oneline (cc_text e))]
                         end in
-              (* (iii) the property, on the implementation's outputs, classified by renorm *)
-              let expect := renorm p1 in
+              (* (iii) the property, on the implementation's outputs; old_renorm names a recurrence of the repaired class *)
+              let before_fix := old_renorm p1 in
               let t3same := match t3 with A "=" => true | _ => false end in
               let l3 :=
                 match r2 with
                 | RUnread => []
                 | RFail k =>
-                    match expect with
+                    match before_fix with
                     | None => [("VIOL", "class=unparsable:zero-literal-comparison " ++ where_ ++ " output " ++ oneline (cc_text e))]
                     | Some _ => [("VIOL", "class=unparsable:other " ++ k ++ " " ++ where_ ++ " output " ++ oneline (cc_text e))]
                     end
                 | _ =>
                     if same_as_p1 then
-                      app (if t3same then [] else [("VIOL", "class=not-idempotent " ++ where_)])
-                      match expect with
-                      | Some q => if fprog_eqb q p1 then [] else [("DIFF", "class-predicate model=renorm-changes rust=round-trips " ++ where_)]
-                      | None => [("DIFF", "class-predicate model=renorm-unparsable rust=round-trips " ++ where_)]
-                      end
+                      (if t3same then [] else [("VIOL", "class=not-idempotent " ++ where_)])
                     else
                       let q2 := match r2 with RProg q => q | _ => p1 end in
-                      match expect with
+                      match before_fix with
                       | Some q => if fprog_eqb q q2
                                   then [("VIOL", "class=tree-changed:minus-zero-comparison " ++ where_ ++ (if t3same then "" else " t3-differs") ++ " output " ++ oneline (cc_text e))]
                                   else [("VIOL", "class=tree-changed:other " ++ where_ ++ " output " ++ oneline (cc_text e))]
@@ -219,7 +213,8 @@ Definition fmt_case (i r : sexp) : list (string * string) :=
                         end in
               let l0 := if wf_prog p1 then l0
                         else (("DIFF", "model=not-parser-shaped(wf_prog) rust=parsed source " ++ oneline text) :: l0) in
-              let feats := feat_prog p1 ++ (if zsafe_prog p1 then " thm-hyps" else " defect-class") in
+              (* thm-hyps = wf_prog (checked above); zero-literal-class = an input of the repaired defect class *)
+              let feats := feat_prog p1 ++ (if zsafe_prog p1 then " thm-hyps" else " thm-hyps zero-literal-class") in
               match r with
               | L cfgs => (l0 ++ cfgs_lines p1 feats [] cfgs)%list
               | _ => (l0 ++ [("BAD", "configurations")])%list
